@@ -39,7 +39,7 @@ LEVEL_NOTE = ("'Differs' without deep is filecmp's shallow rule (differs_shallow
 
 
 def generate(tier, rng):
-    n = 5000 if tier == "quick" else 75000
+    n = 10000 if tier == "quick" else 75000
     for _ in range(n):
         yield sc.gen_case(rng, "c14")
 
